@@ -5,7 +5,7 @@ from props import kv_shared as K
 from props.c12 import check_stats
 
 ID = "C11"
-MODULES = ["IoraModel.Props.C11", "IoraModel.Props.C11Json"]
+MODULES = ["IoraModel.Props.C11", "IoraModel.Props.C11Json", "IoraModel.Props.C12"]
 OBLIGATIONS = [
     {"id": "C11_gen_limits", "theorem": "Iora.C11.gen_limits_ok", "kind": "proved",
      "statement": "Gen obligation: load() re-admits every key, value and record the API admits (totalLen ceiling covers the largest record writeLogEntry can produce)"},
@@ -17,8 +17,12 @@ OBLIGATIONS = [
      "statement": "complete frames of admissible length, whatever they contain, followed by a strict prefix of one more frame: the cut is exactly at the end of the last complete frame"},
     {"id": "C11_D1", "theorem": "Iora.C11.D1_roundtrip", "kind": "proved",
      "statement": "replay(encode rs) = foldl apply rs for every list of API-written records, any CRC function; goodEnd = file size"},
+    {"id": "C11_gen_format", "theorem": "Iora.C12.gen_format_ok", "kind": "proved",
+     "statement": "Gen obligation (shared with C12): the format facts the shared model hard-wires - op letters and which carry an expiry / a value, field widths, snapshot versions, the no-expiry sentinel, load cuts the torn tail and sweeps once at the end"},
+    {"id": "C11_gen_snapcount", "theorem": "Iora.C11.gen_snapcount_ok", "kind": "proved",
+     "statement": "Gen obligation (repair FC11d): load bounds the snapshot entry count by (file size - header) / kMinSnapshotEntryBytes, not by a constant; the divisor is positive and <= 9 (smallest entry of either version); the count field is 32 bits and compactLocked refuses to write a count that does not fit"},
     {"id": "C11_D1_snapshot", "theorem": "Iora.C11.D1_snapshot", "kind": "proved",
-     "statement": "loadSnap(encodeSnap ents) = ok(snapState ents) for every list of valid entries within the count bound"},
+     "statement": "loadSnap(encodeSnap ents) = ok(snapState ents) for every list of valid entries the 32-bit count field can express (no sanity constant left: load's plausibility check never refuses a snapshot compactLocked wrote)"},
     {"id": "C11_D2", "theorem": "Iora.C11.D2_torn_tail", "kind": "proved",
      "statement": "complete records followed by any strict prefix of one more record replay to the complete records only, goodEnd = end of the last complete record; no CRC assumption"},
     {"id": "C11_D3_D4", "theorem": "Iora.C11.D3_D4_crash_recover", "kind": "proved",
@@ -35,10 +39,24 @@ OBLIGATIONS = [
      "statement": "JSON file store: at every crash point of a flush (any op prefix, any byte cut) the store file is untouched or the complete new text (depends on Gen: saveToFile goes through temp + rename)"},
     {"id": "C11_J1_last", "theorem": "Iora.C11.J1_last_flush", "kind": "proved",
      "statement": "after any sequence of completed flushes the file holds the last one"},
+    {"id": "C11_gen_json_ctor", "theorem": "Iora.C11.gen_json_ctor_ok", "kind": "proved",
+     "statement": "Gen obligation (repair FC11c): the ParseLimits JsonFileStore's constructor reads its own file with are SIZE_MAX in every field (not the defaults 10000/10000/100/1000000 of operator>>), and saveToFile pretty-prints (dump(n), n >= 0; the theorems hold for every such n)"},
+    {"id": "C11_gen_json_flusher", "theorem": "Iora.C11.gen_json_flusher_ok", "kind": "proved",
+     "statement": "Gen obligation (repair FC11e): flushThreadFunc flushes the stores while holding registryMutex (a store cannot be destroyed while it is being flushed) and takes it with try_to_lock only (unregisterStore joins the thread while holding it: waiting deadlocked the destructor of the last store)"},
     {"id": "C11_J1_reparse", "theorem": "Iora.C11.J1_reparse", "kind": "proved",
-     "statement": "J1 composed with C13-J2: at every crash point of a flush of serialize(v) the store file is untouched or parses to exactly v (the constructor's parse-error fall-back to an empty store cannot fire on a file this code wrote)"},
+     "statement": "J1 composed with C13-J2, about the CONSTRUCTOR (read whole file, parseOrThrow with its own limits, empty store on a parse error): for every document of finite numbers that fits a 64-bit address space - no limit hypothesis - at every crash point of its flush a new instance starts with what it would have started with before the flush, or with exactly that document"},
     {"id": "C11_J1_last_reparse", "theorem": "Iora.C11.J1_last_reparse", "kind": "proved",
-     "statement": "after any sequence of completed flushes the file parses to the last flushed document"},
+     "statement": "after any sequence of completed flushes the constructor loads exactly the last flushed document (never the empty fall-back)"},
+    {"id": "C11_J2_reopen", "theorem": "Iora.C11.J2_history_reopen", "kind": "proved",
+     "statement": "the store WITH STATE (_store, _dirty; set / remove / flush / destructor / constructor incl. fall-back): from any directory, after any history of set, remove and flush, clean close (the destructor flushes a dirty store) + new instance gives back exactly the document held"},
+    {"id": "C11_J2_crash", "theorem": "Iora.C11.J2_history_crash", "kind": "proved",
+     "statement": "after any such history, a crash at any point of the next flush: a new instance starts with the document of the last completed flush or with the one being flushed"},
+    {"id": "C11_J3_race", "theorem": "Iora.C11.J3_flush_race", "kind": "proved",
+     "statement": "flusher thread (tryFlushIfDirty) against the application thread (set / flush / destructor), every interleaving at the granularity dump - write <file>.tmp - rename, lock scope = Gen fact jsonSaveCallersHoldMutex: the store file is always the dump of a state no older than the last COMPLETED flush(), never newer than memory, and equals memory whenever nobody is flushing and the store is clean"},
+    {"id": "C11_J3_locked", "theorem": "Iora.C11.J3_locked", "kind": "proved",
+     "statement": "the same for the locked shape as a closed statement (J3_statement true)"},
+    {"id": "C11_J3_unlocked", "theorem": "Iora.C11.J3_unlocked_refuted", "kind": "proved",
+     "statement": "J3 needs the lock: with the file operations of a save outside _mutex (seed C11-d and its variant) the schedule set; bg dumps; set; flush() completes; bg writes + renames leaves generation 1 on disk after flush() of generation 2, store clean, nobody flushing"},
     {"id": "C11_J1_inplace", "theorem": "Iora.C11.J1_in_place_refuted", "kind": "proved",
      "statement": "the in-place truncating rewrite does not have J1 (witness: crash after the truncating open)"},
 ]
@@ -267,7 +285,7 @@ def run(ctx: Ctx):
         ctx.audit(MODULES, OBLIGATIONS)
         if not quick:
             ctx.leanchecker(MODULES + ["IoraModel.Lemmas.KvCrash", "IoraModel.Lemmas.KvFiles", "IoraModel.Lemmas.KvStore", "IoraModel.Lemmas.KvLog", "IoraModel.Lemmas.KvMap",
-                                       "IoraModel.Lemmas.JsonFileStore", "IoraModel.Model.JsonFileStore", "IoraModel.Model.KvSpec",
+                                       "IoraModel.Lemmas.JsonFileStore", "IoraModel.Model.JsonFileStore", "IoraModel.Lemmas.KvJfsStore", "IoraModel.Model.KvJfsStore", "IoraModel.Model.KvSpec",
                                        "IoraModel.Model.KvStore", "IoraModel.Model.KvLog", "IoraModel.Model.KvMap"])
     else:
         ctx.cov["obligations"] = len(OBLIGATIONS)
@@ -282,15 +300,31 @@ def run(ctx: Ctx):
         run_kv(ctx, hb, env, rng.fork("kv"), quick, stats, where_dist)
         run_malformed(ctx, hb, env, rng.fork("malformed"), quick, stats)
         run_boundary(ctx, hb, env)
+    if hb:
+        run_manykeys(ctx, hb, env, quick, stats)
     if hj:
         run_json(ctx, hj, env, rng.fork("json"), quick, stats)
+        run_json_big(ctx, hj, env, stats)
+        run_json_race(ctx, hj, env, rng.fork("jrace"), quick, stats)
     ctx.extra["input_distribution"] = {"counts": stats, "crash_points": where_dist}
     ctx.extra["repo_tree_sha"] = ctx.repo_tree_sha(ANCHOR_FILES)
     ctx.extra["not_proved"] = [
         "power loss (un-fsynced data lost or reordered) is outside the process-crash model of the statement",
-        "more than snapCountMax = 10^7 live keys: compactLocked writes such a snapshot but load() throws 'Unreasonable entry count' on it; explicit hypothesis "
-        "(StepOK) of D3/D4/M4, evident from the source, not reproduced (needs 10^7 keys)",
-        "JSON file store: the document text is opaque bytes (Json::dump / parse round trip is C13); the theorem is about which bytes the store file holds",
+        "more than 2^32 - 1 live keys (the width of the snapshot's count field): explicit hypothesis (StepOK) of D3/D4/M4; compactLocked now refuses to write such a snapshot "
+        "(translator fact compactRefusesCountOverflow), the refusal itself is not a model transition; the former ceiling of 10^7 keys is gone (repair FC11d, reproduced before the repair: "
+        "10 000 001 keys, compact() succeeds, reopen throws 'Unreasonable entry count')",
+        "JSON file store: set/remove/flush/destructor/constructor are modelled over C13's Json values (J2), the flusher thread as a two-role skeleton over document GENERATIONS (J3); "
+        "not modelled: the registry / flush-thread lifecycle (registerStore, unregisterStore, flushThreadFunc's copy of the registry), get<T>() conversions, a FAILED save "
+        "(saveToFile swallows the error and flush() still clears _dirty). The stateful model is tied to the code by the translator facts and by implementation-only monitors "
+        "(documents compared with Python's json), not by a line-by-line lockstep of documents; hypothesis DocOK: finite doubles (NaN/Inf are written as null), distinct keys, "
+        "document smaller than 2^64 bytes; recursion depth of parse/dump (stack) is C13's stated hypothesis",
+        "outside C11's statement but repaired (FC11e): flushThreadFunc flushed a COPY of the registry without the registry lock (destroying one store while another stayed registered: "
+        "heap-use-after-free) and waited for registryMutex while unregisterStore() joined it holding that mutex (the destructor of the last store deadlocked; hit by this harness under load). "
+        "The registry / flush-thread lifecycle is pinned by a translator fact only, not modelled; residual: the termination notify can be missed (not under terminateCvMutex), delaying the "
+        "destructor of the last store by up to one flush interval",
+        "observation (I/O failure, outside the process-crash model of C11 and the quantifier of C12; reproduced on the real code with the log descriptor pointed at /dev/full): "
+        "writeLogEntry checks the stream BEFORE its final flush(), so a set() whose flush fails returns normally (acknowledged, data only in the ofstream buffer); the NEXT set(k) throws, and its "
+        "rollback (_kv.erase(key)) removes a previously acknowledged key from memory: get(k) = absent, size 0, although the key is in the log and comes back after a restart",
         "a batch with a repeated key (impossible through the API: setBatch takes a map) is excluded by hypothesis Op.Distinct",
         "observation (not a clause of C11): kMaxPlausibleEpochMs (year ~2300) exceeds what system_clock::time_point can hold (year 2262): a crafted or corrupted log "
         "with a valid CRC and an expiry in between makes fromEpochMs overflow (UB) in load(); not producible by the API"]
@@ -299,8 +333,9 @@ def run(ctx: Ctx):
         "ofstream buffering is observed, not assumed: crash images are built from the write/writev/fopen/rename/truncate calls the real code issued, cut at byte positions inside every write",
         "background compaction thread off (enableBackgroundCompaction=false: maybeCompact runs inline) or idle; TTL wheel tick 1 h with a frozen steady clock, so the only evictions are the ones TimingWheel::drain fires at close",
         "times are whole milliseconds; the wall clock does not go backwards across a restart",
-        "at most snapCountMax (10^7) keys: load() refuses a snapshot with more entries (explicit hypothesis of the snapshot theorems)",
-        "JSON file store: the serialised text is opaque (Json::dump / parse round trip is C13); background flush thread interval set to 1 h so flushes happen only when the harness calls flush()",
+        "fewer than 2^32 keys (width of the snapshot count field; explicit hypothesis of the snapshot theorems)",
+        "JSON file store: C13's libc facts (LibcOk) for the number round trip; the real flusher thread's interval is 1 h, the flusher role is played by a second harness thread "
+        "calling tryFlushIfDirty() with the schedule forced at the open / rename of <file>.tmp (jbgflush)",
     ]
     return ctx.finish(level="proof", rule="a case = one crash image (a prefix of the file operations the real KVStore/JsonFileStore issued for a generated history, the last write cut at a byte) "
                       "reopened by a fresh real store and by the model's load on the same bytes, checked against the admissible set from the history; or one history (file-operation trace vs model); "
@@ -693,7 +728,118 @@ def run_boundary(ctx, hb, env):
                       {"ops": ops, "observed": out, "expected": want, "stderr": err[-500:]}, found_input=True)
 
 
+def gen_fact(ctx, name):
+    """Value text of `def <name> : ... := <value>` in the generated Gen/Kv.lean of this run (None when absent)."""
+    import re
+    from vlib import core as _core
+    try:
+        t = open(os.path.join(_core.LEAN, "IoraModel", "Gen", "Kv.lean")).read()
+    except OSError:
+        return None
+    m = re.search(r"^def %s : [^\n]*? := (.*)$" % re.escape(name), t, re.M)
+    return m.group(1).strip() if m else None
+
+
+def run_manykeys(ctx, hb, env, quick, stats):
+    """Implementation-only: n keys, compact() (the snapshot's count field = n), clean close, reopen: every key must be there (H3: the store must
+    not become unopenable through a successful compaction).  n = 10^5 (quick) / 10^6 (thorough); when load() still refuses counts above a
+    CONSTANT (unrepaired shape, translator fact snapCountConstBound = some N) and N + 1 keys fit the time budget, n = N + 1."""
+    n = 100000 if quick else 1000000
+    cb = gen_fact(ctx, "snapCountConstBound")
+    if cb and cb.startswith("some "):
+        N = int(cb.split()[1])
+        if N + 1 <= (300000 if quick else 20000000):
+            n = N + 1
+    ops = ["reset 0 4000000000 1 1000", "bigkeys %d" % n]
+    out, rc, err = ctx.run_lines([hb], ops, timeout=3000, env=env)
+    ctx.count_case("boundary-many-keys-%d" % n, nontrivial=True)
+    stats["manykeys_n"] = n
+    want = "before=%d reopen=ok size=%d sample=3/3" % (n, n)
+    got = out[1] if len(out) > 1 else "crash rc=%s" % rc
+    if got != want:
+        ctx.violation("property", "D1(snapshot, many keys): %d keys, compact() returned, clean close: the reopened store answers `%s`, expected `%s` "
+                      "(a store must stay openable after a successful compaction)" % (n, got[:160], want),
+                      {"ops": ops, "observed": out, "expected": want, "stderr": err[-500:]}, found_input=True)
+
+
 # ------------------------------------------------------------------ JSON file store
+def gen_json_value(r, depth=0):
+    x = r.below(10 if depth < 3 else 6)
+    if x == 0:
+        return r.choice([0, 1, -1, 42, 2 ** 31, -2 ** 31 - 1, 2 ** 53 + 1, 2 ** 63 - 1, -2 ** 63])
+    if x == 1:
+        return r.choice([0.5, 2.5, -1.25, 1e21, 1e-7, 123456.789, 1e300])
+    if x == 2:
+        return r.choice([True, False, None])
+    if x in (3, 4, 5):
+        return r.choice(["", "s", "\"q\"", "\u00e9\U0001F600", "a\nb\tc", "\\", "x" * r.range(0, 40)])
+    if x in (6, 7):
+        return [gen_json_value(r, depth + 1) for _ in range(r.range(0, 4))]
+    return {r.choice(["a", "b", "k k", "\u00e9", ""]) + str(i): gen_json_value(r, depth + 1) for i in range(r.range(0, 3))}
+
+
+def run_json_big(ctx, hj, env, stats):
+    """Documents just beyond each DEFAULT ParseLimits bound (set() enforces none of them): flushed, closed, reopened, one more write,
+    flushed, reopened - the document must come back (H1: the constructor must not fall back to an EMPTY store on its own file)."""
+    for what, n in (("keys", 10001), ("array", 10001), ("deep", 101), ("string", 1000002), ("keys", 10000), ("deep", 100)):
+        ops = ["jreset", "jbig %s %d" % (what, n), "jreopencmp", "jset 6e6577 78", "jflush", "jreopencmp"]
+        out, rc, err = ctx.run_lines([hj], ops, timeout=600, env=env)
+        ctx.count_case("json-big-%s-%d" % (what, n), nontrivial=True)
+        stats["json_big_" + what] = stats.get("json_big_" + what, 0) + 1
+        bad = [i for i in (2, 5) if len(out) <= i or not out[i].startswith("same ")]
+        if rc != 0 or bad:
+            i = bad[0] if bad else len(out)
+            ctx.violation("property", "J1(limits): a store holding %s (set() accepts it) does not come back after flush + clean close + reopen: `%s` "
+                          "(an EMPTY or different store; the next flush then replaces the data on disk)"
+                          % ({"keys": "%d keys" % n, "array": "an array of %d items" % n, "deep": "a value nested %d deep" % n, "string": "a string of %d bytes" % n}[what],
+                             K.short(out[i] if i < len(out) else "crash rc=%s %s" % (rc, err[-120:]), 160)),
+                          {"ops": ops[:i + 1], "observed": out[:i + 1]}, found_input=True)
+
+
+def run_json_race(ctx, hj, env, rng, quick, stats):
+    """The flusher thread against the application thread with the schedule forced (jbgflush): after flush() of the second value has returned and
+    the parked background save has landed, the file on disk and a reopened store must hold the SECOND value."""
+    n = 6 if quick else 60
+    fixed = [c["ops"] for c in load_corpus() if c["cat"] == "jsonrace"]
+    for h in range(-len(fixed), n):
+        r = rng.fork("race%d" % h)
+        gate = ["open", "rename"][h % 2] if h < 4 else r.choice(["open", "open", "rename"])
+        k = r.choice(["k", "key with space", "\u00e9", "k%d" % r.below(5)])
+        v1, v2 = "v1-%d" % r.below(1000), "v2-%d" % r.below(1000) + "x" * r.range(0, 30)
+        ops = ["jreset"]
+        for _ in range(r.range(0, 3)):
+            ops.append("jset %s %s" % (hexs(("o%d" % r.below(4)).encode()), hexs(("w%d" % r.below(100)).encode())))
+        if r.chance(1, 2):
+            ops += ["jdump", "jflush"]
+        ops += ["jbgflush %s %s %s %s" % (gate, hexs(k.encode()), hexs(v1.encode()), hexs(v2.encode())), "jdump", "jfile", "jreopen"]
+        if h < 0:
+            ops = fixed[h + len(fixed)]
+            gate, k, v1, v2 = ops[-4].split()[1], bytes.fromhex(ops[-4].split()[2]).decode(), bytes.fromhex(ops[-4].split()[3]).decode(), bytes.fromhex(ops[-4].split()[4]).decode()
+        out, rc, err = ctx.run_lines([hj], ops, timeout=300, env=env)
+        ctx.count_case("\n".join(ops), nontrivial=True)
+        stats["json_race_cases"] = stats.get("json_race_cases", 0) + 1
+        if rc != 0 or len(out) != len(ops):
+            ctx.violation("property", "J3: the JSON file store harness died (rc=%s) on a gated flusher/application schedule: %s" % (rc, err[-200:]),
+                          {"ops": ops, "observed": out}, found_input=True)
+            continue
+        g = out[-4]
+        if "parked=1" in g:
+            stats["json_race_parked_at_" + gate] = stats.get("json_race_parked_at_" + gate, 0) + 1
+        if "flushed_while_parked=1" in g:
+            stats["json_race_flush_completed_while_bg_parked"] = stats.get("json_race_flush_completed_while_bg_parked", 0) + 1
+        try:
+            mem = json.loads(bytes.fromhex(out[-3][4:]).decode())
+            disk = json.loads(bytes.fromhex(out[-2][5:]).decode()) if out[-2] not in ("file:none", "file:-") else None
+            back = json.loads(bytes.fromhex(out[-1][4:]).decode())
+        except Exception:
+            mem, disk, back = "?", "unreadable", "unreadable"
+        if disk != mem or back != mem:
+            ctx.violation("property", "J3: set(%r, %r); a background tryFlushIfDirty() parked before the %s of <file>.tmp; set(%r, %r); flush() RETURNED; background save resumes: "
+                          "the file on disk holds %s and a reopened store %s, the completed flush() covered %s (an OLDER snapshot was published over a completed flush)"
+                          % (k, v1, gate, k, v2, K.short(str(disk), 100), K.short(str(back), 100), K.short(str(mem), 100)),
+                          {"ops": ops, "observed": out}, found_input=True)
+
+
 def run_json(ctx, hj, env, rng, quick, stats):
     n_hist = 25 if quick else 400
     fixed = [c["ops"] for c in load_corpus() if c["cat"] == "json"]
@@ -709,11 +855,18 @@ def run_json(ctx, hj, env, rng, quick, stats):
                 if x < 5:
                     val = r.choice(["v%d" % r.below(1000), "", "\"q\"", "\\", "\u00e9\U0001F600", "a\nb\tc", "\u007f\u0000x", "{\"not\":\"nested\"}"]) * r.range(0, 3)
                     ops.append("jset %s %s" % (hexs(r.choice(keys).encode()), hexs(val.encode())))
-                elif x < 7:
+                elif x < 6:
                     ops.append("jremove %s" % hexs(r.choice(keys).encode()))
+                elif x < 8:
+                    ops.append("jsetjson %s %s" % (hexs(r.choice(keys).encode()), hexs(json.dumps(gen_json_value(r)).encode())))
+                    stats["json_structured_values"] = stats.get("json_structured_values", 0) + 1
                 else:
                     ops += ["jdump", "jflush"]
-            ops += ["jdump", "jflush", "jreopen"]
+            if r.chance(1, 2):
+                ops += ["jdump", "jflush", "jreopen"]
+            else:
+                ops += ["jdump", "jreopen"]             # no flush(): the destructor has to write the dirty store
+                stats["json_reopen_without_flush"] = stats.get("json_reopen_without_flush", 0) + 1
         out, rc, err = ctx.run_lines([hj], ops, timeout=300, env=env)
         ctx.count_case("\n".join(ops), nontrivial=True)
         if rc != 0 or len(out) != len(ops):
@@ -722,6 +875,9 @@ def run_json(ctx, hj, env, rng, quick, stats):
             continue
         # "never empty or unreadable": after a clean close the document parses back to what was flushed (real parser, real dump)
         for i, (op, l) in enumerate(zip(ops, out)):
+            if op == "jreopencmp" and not l.startswith("same "):
+                ctx.violation("property", "J1: after a clean close the store reopens to a different document than it held (compared in the harness): `%s`" % K.short(l, 160),
+                              {"ops": ops[:i + 1], "observed": out[:i + 1]}, found_input=True)
             if op == "jreopen":
                 last = [out[j] for j in range(i) if ops[j] == "jdump"][-1:]
                 try:
